@@ -41,9 +41,10 @@ def g_icfg(c):
     fb = c["fallbacks"]
     fbs = {"none": "FbNone", "raises": "FbRaises"}.get(fb["kind"]) or \
         "(%s %s)" % ("FbList" if fb["kind"] == "list" else "FbFun", glist([gstr(a) for a in fb["l"]]))
-    return ("{| i_alias := %s; i_resolver := %s; i_cap := %s; i_static := %s; i_handler := %s; "
+    return ("{| i_alias := %s; i_resolver := %s; i_cap := %s; i_static := %s; i_handler := %s; i_prep_discards := %s; "
             "i_run_missing := %s; i_vmiss := %s; i_fallbacks := %s |}" %
-            (gstr(c["alias"]), res, g_cap(c["cap"]), gbool(c["static"]), h, gbool(c["run_missing"]), vms, fbs))
+            (gstr(c["alias"]), res, g_cap(c["cap"]), gbool(c["static"]), h, gbool(c.get("prep_discards", False)),
+             gbool(c["run_missing"]), vms, fbs))
 
 
 def g_ocfg(c):
@@ -72,6 +73,8 @@ def g_code(c):
         return "(Discard %s)" % g_code(c["next"])
     if k == "force":
         return "(Force %s)" % g_code(c["next"])
+    if k == "enable":
+        return "(Enable %s %s)" % (gbool(c["b"]), g_code(c["next"]))
     if k == "recdata":
         return "(RecordData %s %s %s)" % (gstr(c["key"]), g_expr(c["e"]), g_code(c["next"]))
     if k == "playdata":
@@ -98,7 +101,7 @@ def g_run(r):
                                           gbool(r.get("save_fails", False)))
     pf = r["pf"]
     pfs = "(PfOp %s)" % g_opdef(pf["op"]) if pf["kind"] == "op" else "(PfRaises %s)" % gstr(pf["ty"])
-    return "(RPlay %s %s)" % (gnat(r["target"]), pfs)
+    return "(RPlay %s %s %s)" % (gbool(r.get("enabled", False)), gnat(r["target"]), pfs)
 
 
 def g_exn(name):
@@ -162,7 +165,7 @@ def g_obs(o):
     st = o["state"]
     return "(mk_obs %s %s %s %s %s (mk_rst %s %s %s %s))" % (
         g_outcome(o["outcome"]), glist([g_ev(e) for e in o["trace"]]), glist([g_cev(c) for c in o["cass"]]),
-        g_rec(o["pbouts"]), g_rec(o["recouts"]), gbool(st["live"]), gbool(st["force"]),
+        g_rec(o["pbouts"]), g_rec(o["recouts"]), gbool(st["active"]) + " " + gbool(st["enabled"]), gbool(st["force"]),
         glist([gpair(gstr(k), gN(v)) for k, v in st["counter"]]), gbool(st["icpt"]))
 
 
@@ -172,7 +175,7 @@ def g_case(case, obs):
 
 
 # ---- random programs ------------------------------------------------------------------------------------
-DEFAULT_W = dict(inp=5, out=4, tr=2, discard=0.4, force=0.5, recdata=0.7, playdata=0.4,
+DEFAULT_W = dict(inp=5, out=4, tr=2, discard=0.4, force=0.5, recdata=0.7, playdata=0.4, enable=0.25, prep_discards=0.04,
                  fault=0.12, interrupt=0.05, raise_=0.2, nested=0.35, unser=0.04, handler=0.25,
                  resolver=0.2, cap=0.4, kwargs=0.4, fallbacks=0.15, missing_opts=0.15, static=0.4, prop=0.08)
 
@@ -243,7 +246,7 @@ def rand_icfg(rng, w, nargs, static):
         l = rng.sample(IN_ALIASES, rng.randrange(0, 3))
         fb = {"kind": "raises"} if r < 0.1 else {"kind": "list" if r < 0.6 else "fun", "l": l}
     return dict(alias=alias, resolver=res, cap=cap, static=static, property=False, handler=handler,
-                run_missing=run_missing, vmiss=vm, fallbacks=fb)
+                prep_discards=rng.random() < w["prep_discards"], run_missing=run_missing, vmiss=vm, fallbacks=fb)
 
 
 def rand_ocfg(rng, w):
@@ -282,7 +285,7 @@ def rand_code(rng, w, nenv, depth, budget, maxlen=6):
     """A statement sequence ending in a terminal; nenv = number of values bound so far."""
     n = rng.randrange(0, maxlen + 1)
     stmts = []
-    kinds = ["inp", "out", "tr", "discard", "force", "recdata", "playdata"]
+    kinds = ["inp", "out", "tr", "discard", "force", "recdata", "playdata", "enable"]
     weights = [w[k] for k in kinds]
     cur = nenv
     for _ in range(n):
@@ -313,6 +316,8 @@ def rand_code(rng, w, nenv, depth, budget, maxlen=6):
             break
         elif k in ("discard", "force"):
             stmts.append((k, None))
+        elif k == "enable":
+            stmts.append(("enable", dict(b=rng.random() < 0.5)))
         elif k == "recdata":
             stmts.append(("recdata", dict(key=rng.choice(USER_KEYS), e=rand_expr(rng, w, cur, set()))))
         else:
@@ -389,6 +394,8 @@ def features_of_code(c):
             fs.add("in:" + ("static" if cf["static"] else "property" if cf.get("property") else "instance"))
             if cf["handler"] != "none":
                 fs.add("in-handler:" + cf["handler"])
+            if cf.get("prep_discards"):
+                fs.add("in-handler-discards")
             if cf["resolver"]["kind"] != "none":
                 fs.add("resolver:" + cf["resolver"]["kind"])
             if cf["cap"] is not None:
@@ -407,7 +414,7 @@ def features_of_code(c):
                 fs.add("out-handler:" + n["cfg"]["handler"])
             if n["body"]["k"] not in ("ret", "raise", "interrupt"):
                 fs.add("nested-body")
-        elif k in ("try", "discard", "force", "recdata", "playdata", "interrupt", "raise"):
+        elif k in ("try", "discard", "force", "recdata", "playdata", "interrupt", "raise", "enable"):
             fs.add("stmt:" + k)
     fs.add("inputs:%s" % (nin if nin < 4 else "4+"))
     fs.add("outputs:%s" % (nout if nout < 4 else "4+"))
